@@ -80,6 +80,9 @@ func (r *pRun) setup() error {
 	if o.Focus {
 		opts = append(opts, tea.WithReportFocus())
 	}
+	if o.Compressor {
+		opts = append(opts, tea.WithANSICompressor())
+	}
 	if o.FPS != 0 {
 		opts = append(opts, tea.WithFPS(o.FPS))
 	}
